@@ -3,6 +3,7 @@ package verifsim
 import (
 	"bytes"
 	"encoding/asn1"
+	"encoding/hex"
 	"fmt"
 	"golang.org/x/crypto/cryptobyte"
 	cbasn1 "golang.org/x/crypto/cryptobyte/asn1"
@@ -40,7 +41,7 @@ func init() {
 		if tier == "thorough" {
 			n = e + 4000
 		}
-		return Plan{Runs: n, Enumerated: e, Exhaustive: tier == "thorough", Level: "fault_enumeration", Rule: "enumerated runs: every truncation point (prefix length 0..len-1) of a valid DER CRL and of its PEM form, delivered on the handshake-time first-load path (all points) and on the provision-file and refresh paths (all points in thorough, every 4th in quick), a fixed list of valid-but-unusual documents, and every TLV header of the DER document x 9 structural edits (tag swaps, length +1/-1, indefinite and giant lengths, element dropped), and 30 PEM framing cases (blank lines at three positions, CR/LF forms, RFC 1421 headers, re-wrapped at 65/66/76 characters, one line, broken or missing armour, padding and NUL inside the body, two blocks, 1 MiB line) x 3 paths, and ~130 signature/hash algorithm identifiers met in the wild and their neighbours (x parameters absent/NULL) in both AlgorithmIdentifier fields, and 23 hostile Name values/structures (non-string attribute values, malformed RDNs) in the issuer field and in the AKI's authorityCertIssuer, and 16 member combinations and forms of the authorityKeyIdentifier (keyId, issuer and serial alone and combined, empty, negative, not a SEQUENCE, trailing bytes) x 3 paths (v1, v2 without crlExtensions, no revoked entries, no nextUpdate) on all three paths; further runs: tape-chosen structure-aware mutations (a TLV header's length rewritten to 0x80..0x8f forms / 2^31-1 / 2^63 / beyond the remaining bytes, tag swaps, nesting, random bytes, broken PEM armour, very long lines, hostile authorityKeyIdentifier values) on a tape-chosen path and backend; oracle: no panic or process death, every call returns, allocation of the whole step that parses (including logging and harness bookkeeping, hence the generous constant) <= 64 MiB + 64 x size, with the address space of the run capped at 8 GiB so that a giant allocation kills only that run, a later good delivery is processed; non-trivial = the delivered bytes differ from a valid CRL"}
+		return Plan{Runs: n, Enumerated: e, Exhaustive: tier == "thorough", Level: "fault_enumeration", Rule: "enumerated runs: every truncation point (prefix length 0..len-1) of a valid DER CRL and of its PEM form, delivered on the handshake-time first-load path (all points) and on the provision-file and refresh paths (all points in thorough, every 4th in quick), a fixed list of valid-but-unusual documents, and every TLV header of the DER document x 13 structural edits (tag swaps, length +1/-1, indefinite and giant lengths, element dropped, and four giant long-form lengths up to 2^64 with the lengths of all enclosing elements adjusted so that the giant length is met deep inside an otherwise consistent document), and 30 PEM framing cases (blank lines at three positions, CR/LF forms, RFC 1421 headers, re-wrapped at 65/66/76 characters, one line, broken or missing armour, padding and NUL inside the body, two blocks, 1 MiB line) x 3 paths, and ~130 signature/hash algorithm identifiers met in the wild and their neighbours (x parameters absent/NULL) in both AlgorithmIdentifier fields, and 23 hostile Name values/structures (non-string attribute values, malformed RDNs) in the issuer field and in the AKI's authorityCertIssuer, and 16 member combinations and forms of the authorityKeyIdentifier (keyId, issuer and serial alone and combined, empty, negative, not a SEQUENCE, trailing bytes) x 3 paths (v1, v2 without crlExtensions, no revoked entries, no nextUpdate) on all three paths; further runs: tape-chosen structure-aware mutations (a TLV header's length rewritten to 0x80..0x8f forms / 2^31-1 / 2^63 / beyond the remaining bytes, tag swaps, nesting, random bytes, broken PEM armour, very long lines, hostile authorityKeyIdentifier values) on a tape-chosen path and backend; oracle: no panic or process death, every call returns, allocation of the whole step that parses (including logging and harness bookkeeping, hence the generous constant) <= 64 MiB + 64 x size, with the address space of the run capped at 8 GiB so that a giant allocation kills only that run, a later good delivery is processed; non-trivial = the delivered bytes differ from a valid CRL"}
 	}, Run: runC07})
 }
 
@@ -63,7 +64,10 @@ var c07unusual = []string{"v1", "v2-no-extensions", "no-entries", "no-nextupdate
 
 const c07tlvMax = 72
 
-var c07structVariants = []string{"tag:=31", "tag:=04", "tag:=30", "len+1", "len-1", "len:=80", "len:=847fffffff", "len:=8410000000", "drop"}
+// the "fit:" variants rewrite one length to a giant long form AND adjust the lengths of all enclosing elements, so
+// that everything up to the rewritten header still parses cleanly and the giant length is met deep inside
+var c07structVariants = []string{"tag:=31", "tag:=04", "tag:=30", "len+1", "len-1", "len:=80", "len:=847fffffff", "len:=8410000000", "drop",
+	"fit:len:=888000000000000000", "fit:len:=88ffffffffffffffff", "fit:len:=89010000000000000000", "fit:len:=847fffffff"}
 
 func c07enumCount(tier string) int {
 	return c07truncCount(tier) + c07tlvMax*len(c07structVariants) + len(c07pemCases)*3 + 2*len(c07algOIDs) + 2*len(c07nameValues) + 3*len(c07akiCases)
@@ -507,6 +511,14 @@ func runC07(h *Harness) {
 			b = append(append(append([]byte(nil), b[:t.off+1]...), 0x84, 0x10, 0, 0, 0), b[t.off+t.hdr:]...)
 		case "drop": // the element is missing altogether (enclosing lengths left as they are)
 			b = append(append([]byte(nil), b[:t.off]...), b[t.off+t.hdr+t.length:]...)
+		default:
+			if strings.HasPrefix(v, "fit:len:=") {
+				nl, err := hex.DecodeString(strings.TrimPrefix(v, "fit:len:="))
+				if err != nil {
+					panic(err)
+				}
+				b = rewriteLengthFitting(b, ts, ti, nl)
+			}
 		}
 		body, desc = b, fmt.Sprintf("struct %s at TLV %d (offset %d, depth %d)", v, ti, t.off, t.depth)
 		if ti%3 == 2 {
@@ -740,5 +752,37 @@ func c07mutate(tp *Tape, w *World, base *CRLSpec) ([]byte, string) {
 		p := tp.Int(len(b))
 		b[p] ^= byte(1 << uint(tp.Int(8)))
 		return b, fmt.Sprintf("byteflip@%d", p)
+	}
+}
+
+// rewriteLengthFitting replaces the length octets of TLV ti by nl and adds the bytes this inserts to the length of
+// every enclosing element (re-encoding those lengths, which may grow their headers in turn).
+func rewriteLengthFitting(der []byte, ts []tlv, ti int, nl []byte) []byte {
+	t := ts[ti]
+	b := append(append(append([]byte(nil), der[:t.off+1]...), nl...), der[t.off+t.hdr:]...)
+	delta := 1 + len(nl) - t.hdr
+	// enclosing elements, innermost first (they start before t and end after it)
+	for k := ti - 1; k >= 0; k-- {
+		a := ts[k]
+		if !(a.constructed && a.off < t.off && t.off < a.off+a.hdr+a.length) {
+			continue
+		}
+		enc := derLength(a.length + delta)
+		b = append(append(append([]byte(nil), b[:a.off+1]...), enc...), b[a.off+a.hdr:]...)
+		delta += 1 + len(enc) - a.hdr
+	}
+	return b
+}
+
+func derLength(n int) []byte {
+	switch {
+	case n < 0x80:
+		return []byte{byte(n)}
+	case n < 0x100:
+		return []byte{0x81, byte(n)}
+	case n < 0x10000:
+		return []byte{0x82, byte(n >> 8), byte(n)}
+	default:
+		return []byte{0x83, byte(n >> 16), byte(n >> 8), byte(n)}
 	}
 }
